@@ -16,7 +16,7 @@ include hgood
 
 omit hgood in
 theorem inv_flag {ctx : Ctx} {mc : MCtx} (hi : Inv fin ctx mc) (b : Bool) : Inv fin { ctx with forInItem := b } mc :=
-  ⟨hi.al, hi.var, hi.chains⟩
+  ⟨hi.al, hi.var, hi.chains, hi.env, hi.labels, hi.lblOK⟩
 
 /-- the step for an attribute holding a list -/
 theorem cattrs_step_list {outer inner : Ctx} {omc imc : MCtx} (hio : Inv fin outer omc) (hii : Inv fin inner imc)
@@ -80,14 +80,14 @@ mutual
           simp only [hn] at h ⊢
           exact refSite_refCond hi h
       · simp only [hid, Bool.false_eq_true, if_false, Bool.and_eq_true] at h ⊢
-        obtain ⟨hk2, h3⟩ := h
+        have h3 := h
         cases he : enterFacts fin recs mc p k as with
         | none => rw [he] at h3; cases h3
         | some inner =>
           rw [he] at h3
           simp only at h3
           have hi0 : Inv fin { ctx with forInItem := false } mc := inv_flag hi false
-          obtain ⟨hec, hinv, hvar⟩ := enter_of_facts recs hgood hi0 p k as hk2 inner he
+          obtain ⟨hec, hinv, hvar⟩ := enter_of_facts recs hgood hi0 p k as inner he
           refine ⟨hec, ?_⟩
           have hif : (enter { ctx with forInItem := false } p k as).forInItem = false := by
             rw [enter_unfold]
